@@ -3,6 +3,7 @@ package main
 // Ghost lock state, guarded-by discipline, atomic cells, publication points.
 
 import (
+	"sort"
 	"fmt"
 	"go/token"
 	"go/types"
@@ -263,12 +264,19 @@ func (p *Prog) computeSentinels() {
 	p.sentinelOK = map[*ssa.Global]bool{}
 	errT := types.Universe.Lookup("error").Type()
 	for _, sp := range p.spkgs {
-		if !strings.HasPrefix(sp.Pkg.Path(), repoPrefix) {
+		// repository packages, plus the io package (io.EOF, io.ErrUnexpectedEOF, ...: immutable by convention)
+		if !strings.HasPrefix(sp.Pkg.Path(), repoPrefix) && sp.Pkg.Path() != "io" {
 			continue
 		}
 		for _, m := range sp.Members {
 			if g, ok := m.(*ssa.Global); ok && types.Identical(g.Type().(*types.Pointer).Elem(), errT) {
 				p.sentinelOK[g] = true
+				if txt, ok := sentinelLiteral(sp, g); ok {
+					if p.sentinelText == nil {
+						p.sentinelText = map[string]string{}
+					}
+					p.sentinelText["sentinel$"+g.Pkg.Pkg.Name()+"."+g.Name()] = txt
+				}
 			}
 		}
 	}
@@ -286,6 +294,108 @@ func (p *Prog) computeSentinels() {
 			}
 		}
 	}
+}
+
+// sentinelLiteral: the message of `var E = errors.New("literal")`, read from the package initialiser.
+func sentinelLiteral(sp *ssa.Package, g *ssa.Global) (string, bool) {
+	init := sp.Func("init")
+	if init == nil {
+		return "", false
+	}
+	for _, b := range init.Blocks {
+		for _, in := range b.Instrs {
+			st, ok := in.(*ssa.Store)
+			if !ok || st.Addr != g {
+				continue
+			}
+			v := st.Val
+			if mi, ok := v.(*ssa.MakeInterface); ok {
+				v = mi.X
+			}
+			if c, ok := v.(*ssa.Call); ok {
+				if f := c.Call.StaticCallee(); f != nil && f.Pkg != nil && f.Pkg.Pkg.Path() == "errors" && f.Name() == "New" && len(c.Call.Args) == 1 {
+					return constString(c.Call.Args[0])
+				}
+			}
+		}
+	}
+	return "", false
+}
+
+// errTextAxioms: the error-text model used by strings.Contains(err.Error(), "needle") classifications.
+//   - a sentinel created by errors.New("literal") contains the needle iff the literal does (exact);
+//   - fmt.Errorf(format, args...) contains the needle if a literal segment of the format does, or if an argument
+//     printed with %w/%v/%s is an error whose text does (positive direction only: nothing is concluded from absence).
+func (vc *VC) errTextAxioms() {
+	var needles []string
+	for name := range vc.declared {
+		if strings.HasPrefix(name, "contains$") {
+			needles = append(needles, strings.TrimPrefix(name, "contains$"))
+		}
+	}
+	if len(needles) == 0 {
+		return
+	}
+	sort.Strings(needles)
+	vc.declareFun("errtext_", []string{"Iface"}, "Int")
+	tag := vc.typeTagNamed("*errors.errorString")
+	for _, nd := range needles {
+		fn := smtName("contains$" + nd)
+		for _, sname := range vc.sentinels {
+			txt, ok := vc.p.sentinelText[sname]
+			if !ok {
+				continue
+			}
+			t := app(fn, app("errtext_", app("mk-iface", fmt.Sprint(tag), smtName(sname))))
+			if strings.Contains(txt, nd) {
+				vc.addAxiom(t)
+			} else {
+				vc.addAxiom(sNot(t))
+			}
+		}
+		for _, ef := range vc.errFormats {
+			t := app(fn, app("errtext_", ef.term))
+			lit, verbs := splitFormat(ef.format)
+			if strings.Contains(lit, nd) {
+				vc.addAxiom(t)
+				continue
+			}
+			for i, vb := range verbs {
+				if (vb == 'w' || vb == 'v' || vb == 's') && i < len(ef.args) {
+					vc.addAxiom(sImp(app(fn, app("errtext_", ef.args[i])), t))
+				}
+			}
+		}
+	}
+	vc.used["error text model: errors.New literals exact; fmt.Errorf contains a needle if its format literal or a %w/%v/%s error argument does (positive direction only)"] = true
+}
+
+// splitFormat: the literal text of a format string (verbs replaced by \x00) and the verb letters in order.
+func splitFormat(format string) (string, []byte) {
+	var lit []byte
+	var verbs []byte
+	for i := 0; i < len(format); i++ {
+		if format[i] != '%' {
+			lit = append(lit, format[i])
+			continue
+		}
+		i++
+		if i >= len(format) {
+			break
+		}
+		if format[i] == '%' {
+			lit = append(lit, '%')
+			continue
+		}
+		for i < len(format) && strings.ContainsRune("+-# 0123456789.*[]", rune(format[i])) {
+			i++
+		}
+		if i < len(format) {
+			verbs = append(verbs, format[i])
+		}
+		lit = append(lit, 0)
+	}
+	return string(lit), verbs
 }
 
 // ---------------------------------------------------------------- inferred lock preconditions
